@@ -449,7 +449,9 @@ def check_input(res, mixin, stream, mode, interesting=True, sample_tag=None):
         ch.sock = sock
         return obs
 
-    st = explore(run, d=0 if d == ALL else d, dd=None, merge=keyed, on_result=lambda ch, obs: tally(obs, ch.sock))
+    # the unchanged parser needs < 1000 executions per input; a parser whose outcome depends on the read pattern
+    # stops merging and would explode -- cap it (the divergence is reported long before the cap)
+    st = explore(run, d=0 if d == ALL else d, dd=None, merge=keyed, on_result=lambda ch, obs: tally(obs, ch.sock), max_exec=6000)
     res.add_stats(st)
     if onebyte:
         ch = Chooser()
@@ -818,6 +820,10 @@ def run_config(cfg, tier, seed):
             tag = '%s #%d mode d=%s wide=%s onebyte=%s' % (fam, idx, 'all' if mode[0] == ALL else mode[0],
                                                            'all' if mode[1] == NOLIMIT else mode[1], mode[2])
         check_input(res, mx, stream, mode, interesting, tag)
+        if res.counters.get('violating_cases', 0) > 200:
+            # a broken parser makes every input expensive (states stop merging); the violations are already recorded
+            res.caps.append('family %s part %d stopped after 200 violating cases' % (fam, part))
+            break
         res.count('inputs_' + fam)
         res.count('mode_all_segmentations' if mode[0] == ALL else 'mode_bounded_d%d' % mode[0])
     return res.as_dict()
